@@ -1,13 +1,44 @@
 import Driver.C05
+import IronCalc.Eval.Phase1
 /-
   Model side of `c07`: `c07 build <k> <cells>` — the values of the formula cells of the cell-input
   set `<cells>` (encoding of lean/Driver/C05.lean).  By `build_perm_invariant` the decoded content
   does not depend on the order of entry and by `evaluate_old_irrelevant` the values do not depend
   on earlier evaluations, so the model's answer is the evaluation of the set itself.
 -/
+namespace Driver.C07
+open IronCalc.Phase1
+
+/-- one pass of the recorded oracle: `-` (no conflict) or `<w>:<r1>.<r2>…` — the anchors `r1 …`
+    read what anchor `w` writes (anchors are numbered by their position in the natural order) -/
+def parsePass (s : String) : Option (Nat × List Nat) :=
+  match s.splitOn ":" with
+  | [w, rs] => do
+    let w ← w.toNat?
+    let rs ← (rs.splitOn ".").mapM fun (x : String) => x.toNat?
+    pure (w, rs)
+  | _ => none
+
+/-- `c07 sched <cells> <n> <oracle> …`: the Lean scheduler on the recorded oracle, from the natural
+    order; answer `<final order> <restarts> <bound reached>` -/
+def sched (n : String) (oracle : String) : String :=
+  match n.toNat? with
+  | none => "bad-n"
+  | some n =>
+    let passes := ((oracle.splitOn "/").map parsePass).toArray
+    let dep : Nat → Nat → Nat → Bool := fun p a b =>
+      match passes.getD p none with
+      | some (w, rs) => b == w && rs.contains a
+      | none => false
+    let (order, restarts, gaveUp) := phase1 dep (List.range n)
+    s!"{".".intercalate (order.map toString)} {restarts} {if gaveUp then 1 else 0}"
+
+end Driver.C07
+
 namespace Driver
 def c07 (args : List String) : String :=
   match args with
+  | "sched" :: _ :: n :: oracle :: _ => Driver.C07.sched n oracle
   | ["build", _, cells] => Driver.C05.run cells
   | _ => "bad-op"
 end Driver
